@@ -133,11 +133,16 @@ var vfBuildMu sync.Mutex
 // vfBuildServer builds the real default chain up to (not including) failover,
 // with stub as the upstream, and returns the server plus a teardown.
 func vfBuildServer(cfg *config.Config, stub *vfStub) (*Server, func()) {
+	return vfBuildServerWith(cfg, stub)
+}
+
+// vfBuildServerWith is vfBuildServer for any tail handler named "vfupstream".
+func vfBuildServerWith(cfg *config.Config, tail middleware.Handler) (*Server, func()) {
 	vfBuildMu.Lock()
 	verifhook.SetBackground(false)
 	middleware.Reset()
 	defaults.RegisterUpTo("failover")
-	middleware.Register("vfupstream", func(*config.Config) middleware.Handler { return stub })
+	middleware.Register("vfupstream", func(*config.Config) middleware.Handler { return tail })
 	middleware.Setup(cfg)
 	s := New(cfg)
 	return s, func() {
